@@ -78,6 +78,10 @@ MULTI = [
     ("m_list", [_p("L: [ Items ] | [ ]"), _p("Items: Items , V | V"), _p("V: STR | NUM | L")],
      "NUM: /\\d+(\\.\\d+)?/;\nSTR: /\"[^\"]*\"/;",
      {"NUM": ["3", "2.50"], "STR": ["\"\"", "\"a b\"", "\"x,y\""]}),
+    # two regex terminals matching the same text: DisambiguationError in LR, forked heads in GLR
+    ("m_lexamb", [_p("S: I | S I"), _p("I: NAME | KEY = NUM | NAME !")],
+     "NAME: /[a-z]+/;\nKEY: /[a-z]+/;\nNUM: /\\d+/;",
+     {"NAME": ["ab", "c"], "KEY": ["k", "ab"], "NUM": ["1"]}),
     ("m_kw", [_p("S: D | S D"), _p("D: let ID = V | letrec ID"), _p("V: ID | NUM")],
      "NUM: /\\d+/;\nID: /[a-z]+/;",
      {"NUM": ["7"], "ID": ["a", "let", "letx", "b"]}),
@@ -101,7 +105,7 @@ def gtext_of(rules, termdefs, layout):
 def _lr_result(p, w, gi, impl, parglare):
     r = {}
     try:
-        with impl.time_limit(10):
+        with impl.time_limit(3):
             t = p.parse(w)
         r["kind"] = "ok"
         r["tree"] = impl.node_sx(t, gi)
@@ -122,7 +126,7 @@ def _lr_result(p, w, gi, impl, parglare):
 def _glr_result(p, w, gi, impl, parglare):
     r = {}
     try:
-        with impl.time_limit(10):
+        with impl.time_limit(5):
             f = p.parse(w)
             n = len(f)
             r["kind"] = "forest"
@@ -164,10 +168,14 @@ def _worker(job):
     from parglare import GLRParser, Grammar, Parser
     from lib import impl
     out = {"name": job["name"], "configs": {}}
+    diverges = False
     for cfg, layout, wsparam in job["configs"]:
         gtext = gtext_of(job["rules"], job["termdefs"], layout)
         c = {"cfg": cfg, "layout": layout, "ws": wsparam, "gtext": gtext, "gerr": None, "inputs": {}}
         out["configs"][cfg] = c
+        if diverges:
+            c["gerr"] = "skipped: LALR construction diverges for this base grammar"
+            continue
         try:
             with impl.time_limit(20):
                 g = Grammar.from_string(gtext)
@@ -183,7 +191,7 @@ def _worker(job):
         kw = {} if wsparam is None else {"ws": wsparam}
         lr = glr = lr_twin = None
         try:
-            with impl.time_limit(20), impl.quiet():
+            with impl.time_limit(8), impl.quiet():
                 lr = Parser(g, build_tree=True, **kw)
             c["lr"] = "ok"
             c["table"] = impl.dump_table(lr.table, gi)
@@ -200,16 +208,22 @@ def _worker(job):
         except BaseException as e:  # noqa
             c["lr"] = impl.exc_kind(e)
         try:
-            with impl.time_limit(20), impl.quiet():
+            with impl.time_limit(8), impl.quiet():
                 glr = GLRParser(g, **kw)
             c["glr"] = "ok"
         except BaseException as e:  # noqa
             c["glr"] = impl.exc_kind(e)
+        if c.get("lr") == "Timeout" and c.get("glr") == "Timeout":
+            diverges = True
+            continue
+        lr_dead = glr_dead = False
         for w in job["inputs"][cfg]:
             r = {}
             if lr is not None:
                 r["rx"] = impl.rx_matrix(gi, w)
-                r["lr"] = _lr_result(lr, w, gi, impl, parglare)
+                # a parser that looped once (cyclic grammar: C04/C01 matter) is not run again
+                r["lr"] = {"kind": "exc:Timeout"} if lr_dead else _lr_result(lr, w, gi, impl, parglare)
+                lr_dead = lr_dead or r["lr"]["kind"] == "exc:Timeout"
                 if lr.layout_parser is not None:
                     sk = []
                     for q in range(len(w) + 1):
@@ -223,9 +237,10 @@ def _worker(job):
                             sk.append(-2)
                     r["skip"] = sk
                 if lr_twin is not None:
-                    r["lr_twin"] = _lr_result(lr_twin, w, gi, impl, parglare)
+                    r["lr_twin"] = {"kind": "exc:Timeout"} if lr_dead else _lr_result(lr_twin, w, gi, impl, parglare)
             if glr is not None:
-                r["glr"] = _glr_result(glr, w, gi, impl, parglare)
+                r["glr"] = {"kind": "exc:Timeout"} if glr_dead else _glr_result(glr, w, gi, impl, parglare)
+                glr_dead = glr_dead or r["glr"]["kind"] == "exc:Timeout"
             c["inputs"][w] = r
     return out
 
@@ -382,7 +397,7 @@ def gen_jobs(ctx):
             if s is not None and s not in strs:
                 strs.append(s)
         bases.append((name, text, "", [list(s) for s in strs], False))
-    nrand = 40 if quick else 500
+    nrand = 90 if quick else 500
     for i in range(nrand):
         big = i % 3 == 0
         r = gramgen.random_grammar(rng, max_nt=4 if big else 3, max_alts=3, max_rhs=3,
@@ -511,6 +526,8 @@ def rel_tree(a, b, R):
 
 def rel_lr(r1, r2, R, S):
     """the property on two impl LR results"""
+    if "exc:Timeout" in (r1["kind"], r2["kind"]):
+        return None
     if r1["kind"] != r2["kind"]:
         return "kinds differ: %s / %s" % (r1["kind"], r2["kind"])
     if r1["kind"] == "ok":
@@ -519,7 +536,10 @@ def rel_lr(r1, r2, R, S):
         if len(r1["trace"]) != len(r2["trace"]):
             return "token counts differ"
     elif r1["kind"] in ("SyntaxError", "DisambiguationError"):
-        if (r1["pos"], r2["pos"]) not in S:
+        # SyntaxError is located at the offending token (a token start); DisambiguationError carries
+        # Location(head), i.e. the span of the last shifted/reduced node (parser.py _next_token), which
+        # is a boundary but not necessarily a token start
+        if (r1["pos"], r2["pos"]) not in (S if r1["kind"] == "SyntaxError" else R):
             return "error positions %d / %d do not correspond" % (r1["pos"], r2["pos"])
         # (tokens_ahead is diagnostic: it tries every terminal of the grammar, LAYOUT ones included,
         #  on the text after the error position, which a relayout legitimately changes)
@@ -529,6 +549,8 @@ def rel_lr(r1, r2, R, S):
 
 
 def rel_glr(r1, r2, R, S):
+    if "exc:Timeout" in (r1["kind"], r2["kind"]):
+        return None
     if r1["kind"] != r2["kind"]:
         return "kinds differ: %s / %s" % (r1["kind"], r2["kind"])
     if r1["kind"] == "forest":
@@ -538,7 +560,7 @@ def rel_glr(r1, r2, R, S):
             if not rel_tree(t1, t2, R):
                 return "forest trees are not related by the boundary correspondence"
     elif r1["kind"] in ("SyntaxError", "DisambiguationError"):
-        if (r1["pos"], r2["pos"]) not in S:
+        if (r1["pos"], r2["pos"]) not in (S if r1["kind"] == "SyntaxError" else R):
             return "error positions %d / %d do not correspond" % (r1["pos"], r2["pos"])
         if r1.get("expected") != r2.get("expected"):
             return "expected symbols differ"
@@ -589,6 +611,9 @@ def sk_of(w, chars):
 def compare_model_impl(ctx, st, o, res, w, rep, what):
     """model result o (sx of lr_result) against the impl's LR result"""
     tag = o[0]
+    if res["kind"] == "exc:Timeout" and tag != 3:
+        st["impl_timeouts_model_terminates"] = st.get("impl_timeouts_model_terminates", 0) + 1
+        return
     if tag == 3:
         st["model_out_of_fuel"] += 1
         if res["kind"] != "exc:Timeout":
@@ -617,7 +642,9 @@ def compare_model_impl(ctx, st, o, res, w, rep, what):
     elif k == "DisambiguationError":
         if tag == 4:
             st["layout_errors"] += 1        # raised by the LAYOUT sub-parser
-        elif tag != 2 or o[1] != res["pos"]:
+        elif tag != 2:
+            # (the impl locates this error at the last stack node's span, the model at the scanned
+            #  position: only the kind is compared; the relayout oracle checks the impl's position)
             ctx.violation("%s: impl DisambiguationError at %r, model %r" % (what, res["pos"], o[:2]),
                           dict(rep, model=o), no_input=True, key="diff-diserror")
     else:
@@ -633,7 +660,7 @@ def run(ctx):
           "pairs_accepting": 0, "pairs_rejecting": 0, "validator_true": 0, "validator_false": 0,
           "model_out_of_fuel": 0, "layout_errors": 0, "layout_positions_checked": 0,
           "layout_vs_ws_inputs": 0, "twin_inputs": 0, "by_config": {}, "glr_ambiguous_pairs": 0,
-          "filler_kinds": {}, "std_table_matches": 0}
+          "filler_kinds": {}, "std_table_matches": 0, "impl_timeouts": 0, "glr_refused": {}}
     mcases, mmeta = [], []
     distinct = set()
     samples = []
@@ -645,6 +672,9 @@ def run(ctx):
             c = cfgres[cfg]
             st["configs"] += 1
             bc = st["by_config"].setdefault(cfg, {"lr": 0, "glr": 0, "pairs": 0})
+            if c["gerr"] and c["gerr"].startswith("skipped"):
+                st["glr_refused"]["skipped"] = st["glr_refused"].get("skipped", 0) + 1
+                continue
             if c["gerr"]:
                 st["grammar_errors"] += 1
                 ctx.violation("grammar with layout configuration %s is refused: %s" % (cfg, c["gerr"]),
@@ -660,6 +690,9 @@ def run(ctx):
             if has_glr:
                 st["glr_parsers"] += 1
                 bc["glr"] += 1
+            elif c.get("glr") == "Timeout" and c.get("lr") == "Timeout":
+                # LALR construction diverges on this grammar whatever the layout (KF-C05): not a C14 matter
+                st["glr_refused"]["Timeout"] = st["glr_refused"].get("Timeout", 0) + 1
             else:
                 ctx.violation("GLRParser construction fails (%s) for layout configuration %s"
                               % (c.get("glr"), cfg), {"grammar": c["gtext"]}, no_input=True, key="glr-ctor")
@@ -682,7 +715,9 @@ def run(ctx):
                     if r["lr"]["kind"] == "ok" and not trace_lossless(r["lr"]["trace"], w):
                         ctx.violation("LR: layout_content of a leaf is not the text between the tokens",
                                       dict(rep, trace=r["lr"]["trace"]), key="layout-content")
-                    if r["lr"]["kind"].startswith("exc:"):
+                    if r["lr"]["kind"] == "exc:Timeout":
+                        st["impl_timeouts"] += 1
+                    elif r["lr"]["kind"].startswith("exc:"):
                         ctx.violation("Parser.parse raised %s" % r["lr"]["kind"], rep, key="lr-" + r["lr"]["kind"])
                 if has_glr:
                     st["impl_glr_parses"] += 1
@@ -692,20 +727,26 @@ def run(ctx):
                             if not trace_lossless(tr, w):
                                 ctx.violation("GLR: layout_content of a leaf is not the text between the tokens",
                                               dict(rep, trace=tr), key="glr-layout-content")
-                    if g["kind"].startswith("exc:") and g["kind"] not in ("exc:LoopError",):
+                    if g["kind"] == "exc:Timeout":
+                        st["impl_timeouts"] += 1
+                    elif g["kind"].startswith("exc:") and g["kind"] not in ("exc:LoopError",):
                         ctx.violation("GLRParser.parse raised %s" % g["kind"], rep, key="glr-" + g["kind"])
+                if has_lr and w in m["extra"].get(cfg, []):
+                    mcases.append((4, [pconf, [[ord(ch) for ch in w], r["rx"]], FUEL, 0]))
+                    mmeta.append(("single", c, w, r, None))
                 if has_lr and layout is not None:
                     mcases.append((141, [pconf, [[ord(ch) for ch in w], r["rx"]], FUEL, wsl]))
                     mmeta.append(("skip", c, w, r, LAYOUTS[layout][2]))
                 if has_lr and "lr_twin" in r:
                     st["twin_inputs"] += 1
-                    if r["lr_twin"] != r["lr"]:
+                    if r["lr_twin"] != r["lr"] and "exc:Timeout" not in (r["lr_twin"]["kind"], r["lr"]["kind"]):
                         ctx.violation("LAYOUT rule (%s) vs the same parser with ws: results differ" % cfg,
                                       dict(rep, with_layout=r["lr"], with_ws=r["lr_twin"]), key="twin-" + cfg)
                     mcases.append((142, [pconf, [[ord(ch) for ch in w], r["rx"]], FUEL, 0, wsl]))
                     mmeta.append(("twin", c, w, r, None))
             # ---- LAYOUT-equivalent grammar vs the grammar without LAYOUT rule (by names)
-            if layout is not None and LAYOUTS[layout][2] and "ws" in cfgres and not cfgres["ws"]["gerr"]:
+            if layout is not None and LAYOUTS[layout][2] and "ws" in cfgres and not cfgres["ws"]["gerr"] \
+                    and cfgres["ws"]["inputs"]:
                 c0 = cfgres["ws"]
                 for w, r in c["inputs"].items():
                     r0 = c0["inputs"].get(w)
@@ -714,7 +755,8 @@ def run(ctx):
                     st["layout_vs_ws_inputs"] += 1
                     rep = {"grammar": c["gtext"], "grammar_ws": c0["gtext"], "options": opt, "input": w}
                     if has_lr and c0.get("lr") == "ok":
-                        if named_lr(r["lr"], c) != named_lr(r0["lr"], c0):
+                        if "exc:Timeout" not in (r["lr"]["kind"], r0["lr"]["kind"]) and \
+                                named_lr(r["lr"], c) != named_lr(r0["lr"], c0):
                             ctx.violation("LR: LAYOUT rule (%s) and ws parameter give different results/positions/"
                                           "layout_content/errors" % cfg,
                                           dict(rep, with_layout=r["lr"], with_ws=r0["lr"]), key="lvw-lr-" + cfg)
@@ -722,7 +764,8 @@ def run(ctx):
                         ctx.violation("LR table construction outcome differs between LAYOUT rule (%s: %s) and ws (%s)"
                                       % (cfg, c.get("lr"), c0.get("lr")), rep, no_input=True, key="lvw-ctor")
                     if has_glr and c0.get("glr") == "ok":
-                        if named_glr(r["glr"], c) != named_glr(r0["glr"], c0):
+                        if "exc:Timeout" not in (r["glr"]["kind"], r0["glr"]["kind"]) and \
+                                named_glr(r["glr"], c) != named_glr(r0["glr"], c0):
                             ctx.violation("GLR: LAYOUT rule (%s) and ws parameter give different forests/positions/"
                                           "layout_content/errors" % cfg,
                                           dict(rep, with_layout=r["glr"], with_ws=r0["glr"]), key="lvw-glr-" + cfg)
@@ -804,6 +847,9 @@ def run(ctx):
             if extra and iskip != o[1]:
                 ctx.violation("ws-equivalent LAYOUT rule (%s) does not skip exactly the ws characters at some "
                               "position" % c["cfg"], dict(rep, layout=iskip, ws=o[1]), key="layout-not-ws")
+            continue
+        if kind == "single":
+            compare_model_impl(ctx, st, o, r["lr"], w, {"grammar": c["gtext"], "input": w}, "LR (%s)" % c["cfg"])
             continue
         if kind == "twin":
             rep = {"grammar": c["gtext"], "input": w}
